@@ -34,12 +34,15 @@ def _c01_runs(tier, seed, replay):
 
 def _c02_runs(tier, seed, replay):
     if tier == "quick":
-        return [["crash", "--kind", "exhaustive", "--depth", "3", "--n", "100000"],
+        return [["script", "--file", "/verif/corpus/C02-stale-entries-after-recovery.script"],
+                ["crash", "--kind", "exhaustive", "--depth", "3", "--n", "100000"],
                 ["crash", "--seed", S(seed, 1), "--n", "40", "--maxops", "14"],
                 ["crash", "--seed", S(seed, 2), "--n", "40", "--maxops", "14"],
                 ["repl", "--mode", "crash", "--seed", S(seed, 3), "--n", "20", "--maxlen", "12"],
-                ["crash", "--kind", "large", "--seed", S(seed, 4), "--n", "1"]]
-    return ([["crash", "--kind", "exhaustive", "--depth", "4", "--n", "3000"]]
+                ["crash", "--kind", "large", "--seed", S(seed, 4), "--n", "1"],
+                ["crash", "--kind", "double", "--seed", S(seed, 5), "--n", "80"]]
+    return ([["script", "--file", "/verif/corpus/C02-stale-entries-after-recovery.script"], ["crash", "--kind", "exhaustive", "--depth", "4", "--n", "3000"]]
+            + [["crash", "--kind", "double", "--seed", S(seed, 50 + i), "--n", "300"] for i in range(4)]
             + [["crash", "--seed", S(seed, 10 + i), "--n", "120", "--maxops", "16"] for i in range(10)]
             + [["repl", "--mode", "crash", "--seed", S(seed, 30 + i), "--n", "60", "--maxlen", "16"] for i in range(4)]
             + [["crash", "--kind", "large", "--seed", S(seed, 40 + i), "--n", "2"] for i in range(2)])
@@ -223,11 +226,12 @@ PROPS = {
                                           "live_refinement: hash functions return 32-byte digests that are never all zero (HashWF; an all-zero digest is the crate's 'blank' node) and lengths/byte totals stay below 2^64"],
     ),
     "C02": dict(
-        theorems=["HC.C02.reopen_exact", "HC.C02.append_commit", "HC.C02.flush_atomic", "HC.C02.fresh", "HC.C02.reachable", "HC.C02.crash_atomic_partial"],
+        theorems=["HC.C02.crash_atomic", "HC.C02.crash_then_continue", "HC.C02.acknowledged_stays", "HC.C02.history_invariants_reopen",
+                  "HC.C02.reopen_exact", "HC.C02.append_commit", "HC.C02.flush_atomic", "HC.C02.fresh", "HC.C02.reachable", "HC.C02.crash_atomic_partial"],
         bridge_modules=["HC.Bridge.Oplog", "HC.Bridge.Stores"], bridging=OPLOG_BRIDGE + STORES_BRIDGE,
         runs=_c02_runs,
-        partial="proved: the oplog commit protocol (entry append = commit point; header switch atomic at every crash point; stale entries invisible). Not proved: idempotence of replay over partially flushed bitfield/tree/data files — validated by reopening every journal prefix on the real crate and on the model.",
-        rule="for every history, after every mutating call, the storage is rebuilt from every prefix of that call's journal of write/delete/truncate operations, reopened with open(true), probed, and compared with the list model's before and after states and with the Lean model's prediction; some recovered cores are continued. distinct = distinct transcripts",
+        partial="proved on the model (crash_atomic): after any history of calls and reopen steps of a writer core, for any further append_batch/clear/read and ANY prefix of its storage operations, Hypercore::new on the stores succeeds and the recovered core represents the log before the call or the log after it (length, byte length, has, get, exact contiguous length, writability), stays usable (crash_then_continue), and acknowledged calls stay applied (acknowledged_stays); crash points inside a flush (bitfield pages / tree nodes partly written, header written but entries not yet truncated) are inside the theorem. Not proved (validated by reopening every journal prefix on the real crate and on the model): a second crash or reopen of a core recovered from the crash point 'new header written, entries not truncated' (needs a CRC argument for the stale bytes), proof applications on a replica, make_read_only; same hypotheses as C01.full_refinement.",
+        rule="for every history, after every mutating call, the storage is rebuilt from every prefix of that call's journal of write/delete/truncate operations, reopened with open(true), probed, and compared with the list model's before and after states and with the Lean model's prediction; some recovered cores are continued, and 'double' histories crash again inside the next call (make_read_only, append, batch, clear) on the recovered core, preferring the windows inside a flush. distinct = distinct transcripts",
         trusted=LOG_TRUSTED, assumptions=["each storage operation is atomic and persisted in issue order"],
     ),
     "C07": dict(
@@ -239,10 +243,11 @@ PROPS = {
         trusted=LOG_TRUSTED, assumptions=["CrcDetects: a torn header slot does not pass the checksum unless it equals the old or the new frame"],
     ),
     "C08": dict(
-        theorems=["HC.C08.has_after_update", "HC.C08.contig_step", "HC.C08.clear_rule_eq", "HC.C08.contig_reachable", "HC.C08.full"],
+        theorems=["HC.C08.has_after_update", "HC.C08.contig_step", "HC.C08.clear_rule_eq", "HC.C08.contig_reachable", "HC.C08.full",
+                  "HC.C08.rep_exact", "HC.C08.writer_exact", "HC.C08.recovered_exact"],
         bridge_modules=["HC.Bridge.Stores"], bridging=STORES_BRIDGE,
         runs=_c08_runs,
-        partial="proved for every sequence of range updates; that the Rust page/word/mask arithmetic realises setRange and that pages (de)serialise exactly is validated by the correspondence run (cores up to 70k blocks, has() scanned on every index)",
+        partial="proved: the incremental rule for every sequence of range updates (contig_reachable); and on the model of the whole crate, for a writer core after any history of calls and reopen steps and after recovery from a crash at any storage operation (bitfield pages ahead of the header hint), has() = the held set and contiguous_length = the first missing index (writer_exact, recovered_exact), page (de)serialisation included. Not proved: replicas receiving blocks out of order; that the Rust page/word/mask arithmetic realises setRange is validated by the correspondence run (cores up to 70k blocks, has() scanned on every index)",
         rule="cores filled past 8192, 32768 and 65536 blocks, clears straddling word/page edges, reopen and crash recovery in between; has() on every index below length+2 and on boundary indices of the next pages; contiguous_length compared with the first missing index",
         trusted=LOG_TRUSTED, assumptions=["range updates have positive length"],
     ),
